@@ -54,7 +54,7 @@ seed("C11_m1", "C11", "cal_chain_boost: lab-frame momenta used below the top", "
 seed("C11_m2", "C11", "create_rotate_p_decay: 'old axes' snapshot taken before the mother's axes are loaded", "a second daughter (or a back-tracked branch) whose own daughter decays again",
      "caught by ./check C11 (forward layers): 194 failures")
 seed("C07_m1", "C07", "Model_cfit.nll_grad_hessian drops resolution_size", "model cfit AND resolution_size > 1 AND the Hessian entry point",
-     "missed (resolution_size > 1 was outside the check's scenarios); scenarios being added", "gap: see DESIGN section 12")
+     "missed at first (resolution_size > 1 was outside the scenarios); caught after modelling resolution_size (C06 theorems C06_nll_res_*) and adding R in {2,3} scenarios: 16 failures", "model + scenarios extended")
 seed("C07_m2", "C07", "grad_hessp_batch: second-order normalisation term written with -int_g^2 instead of int_h", "extended likelihood AND the Hessian-vector entry point",
      "caught by ./check C07 (H.p layer for the extended model): 5 failures")
 
@@ -81,11 +81,11 @@ seed("C17_m2", "C17", "set_used_chains returns early (without copying) when the 
 seed("C20_m1", "C20", "multi_sampling: thinning after a late bound increase loses the kept events' bookkeeping", "a weight above the running bound found in a late batch",
      "caught by ./check C20 (scripted weight spikes): 12 failures")
 seed("C20_m2", "C20", "Hist1D.histogram: emptiness of a bin judged from the weighted count", "a bin whose weights cancel exactly (signal minus sideband)",
-     "missed at first; caught after adding the 'cancel' weight family (see INDEX for the count)", "generator strengthened")
+     "missed at first; caught after adding the 'cancel' weight family: 4 failures", "generator strengthened")
 seed("C02_m1", "C02", "SU2M.get_euler_angle: alpha, gamma taken from products (loses the double cover)", "half-integer final-state spin AND alignment rotation beyond 2 pi sheet",
      "caught by ./check C02: 28 failures")
 seed("C02_m2", "C02", "cal_angle_from_momentum_id_swap: random_z not forwarded to the exchanged copy", "identical_particles declared AND random_z: False AND a moving parent",
-     "missed at first (no declared-identical configuration in the regular stream); caught after adding the identical-vector configuration (see INDEX)", "check strengthened")
+     "missed at first (no declared-identical configuration in the regular stream); caught after adding the identical-vector configuration: 10 failures", "check strengthened")
 seed("C06_m1", "C06", "cfit: background normalisation integral cached on the (lru_cached) model object", "cfit AND one ConfigLoader serving a second get_fcn(all_data) with another phase-space sample AND non-constant bg_value",
      "see INDEX", "")
 seed("C06_m2", "C06", "GaussianConstr.get_constrain_term skips non-trainable variables", "gauss_constr on a variable that is fixed when the NLL is evaluated (likelihood scan)",
